@@ -476,6 +476,14 @@ class Interp:
                 raise Undecidable(f"store to computed attribute {unparse(t)}")
             self.store[key] = v
             self.path.trace.append(("set", key, v))
+        elif isinstance(t, ast.Subscript) and isinstance(t.slice, ast.Slice):
+            base = self.eval(t.value, frame)
+            lo = self.eval(t.slice.lower, frame) if t.slice.lower else None
+            hi = self.eval(t.slice.upper, frame) if t.slice.upper else None
+            if not isinstance(base, list) or isinstance(lo, Residual) or isinstance(hi, Residual) or isinstance(v, Residual):
+                raise Undecidable(f"slice assignment {unparse(t)}")
+            base[lo:hi] = list(v)
+            self.path.trace.append(("setslice", self.attr_key(t.value, frame) or unparse(t.value), list(v)))
         elif isinstance(t, ast.Subscript):
             base = self.eval(t.value, frame)
             i = self.eval(t.slice, frame)
